@@ -24,6 +24,7 @@ FileOK(j) ==
       [] e.t = "sparse" -> SparseWF(f, 1) /\ SparseN(f, 1) = c.len /\ SparseItems(f, 1) = c.ones /\ SparseNext(f, 1) = Len(f) + 1
       [] e.t = "rl"     -> RLWF(f, 1) /\ N(f, 1) = c.len /\ RLRuns(f, 1) = c.runs /\ RLNext(f, 1) = Len(f) + 1
       [] e.t = "wmcore" -> CoreWF(f, 1) /\ CoreItems(f, 1) = c.vals /\ CoreNext(f, 1) = Len(f) + 1
+      [] e.t = "wmcore64" -> CoreWF(f, 1) /\ CoreItemSets(f, 1) = [i \in 1..Len(c.vals) |-> ToSet(c.vals[i])] /\ CoreNext(f, 1) = Len(f) + 1
       [] e.t = "wm"     -> WMWF(f, 1) /\ N(f, 1) = Len(c.vals) /\ CoreItems(f, 2) = c.vals /\ WMNext(f, 1) = Len(f) + 1
 
 SkipOK(j) == LET e == Rec[j] f == Files[j] IN
